@@ -42,9 +42,13 @@ class Env:
     def __init__(self, stage, syms):
         self.stage = stage
         self.syms = syms  # name -> MX
+        self.scope = None
 
     def lookup(self, name):
         if name not in self.syms:
+            if name.startswith("?"):  # a symbol that does not belong to this OCP (specification fault)
+                self.syms[name] = ca.MX.sym("foreign" + name[1:])
+                return self.syms[name]
             raise KeyError(name)
         return self.syms[name]
 
@@ -61,6 +65,16 @@ def inst(ast, env):
     if k == "i":
         s = env.lookup(ast[1])
         return s.nz[ast[2]] if s.numel() > 1 else s
+    if k == "in":  # expression of another stage of the same OCP
+        return inst(ast[2], env.scope.node(ast[1]).env)
+    if k == "tf":
+        return env.stage.tf
+    if k == "mx":
+        return ca.MX(ast[1])
+    if k == "DT":
+        return env.stage.DT
+    if k == "DTc":
+        return env.stage.DT_control
     if k == "t":
         return env.stage.t
     if k == "T":
@@ -132,6 +146,9 @@ def symbols_of(ast, out=None):
         return out
     if ast and ast[0] in ("s", "i"):
         out.add(ast[1])
+        return out
+    if ast and ast[0] == "in":
+        out.add("@" + ast[1])
         return out
     for a in ast[1:]:
         symbols_of(a, out)
